@@ -5,6 +5,12 @@ props = [json.loads(l) for l in open('properties.jsonl')]
 ids = [p['id'] for p in props]
 # id -> (level, technique, text, note, design_ref)
 checks = {
+ 'C11': ('exploration', 'runtime monitor: independent recursive-descent if-feature evaluator, exhaustive over expressions x assignments x configuration style; dump diff for deviations',
+         'Every if-feature expression with <= 3 (thorough: <= 4) operators over 3 features is loaded under all 8 assignments with allow-list, deny-list and default configuration; each guardable statement kind and features of an imported module are covered; malformed expressions must be load errors; for deviations the canonical dumps with and without the deviation may differ in exactly the named paths (incl. several deviate kinds in one deviation).',
+         'exhaustive for the stated expression bound only; deviations are a fixed catalog of 30', 'DESIGN.md 3/C11'),
+ 'C20': ('exploration', 'Go race detector on a -race build of the harness + determinism oracle (byte equality with sequential baseline) + reflection fingerprint of the compiled module',
+         'Each case runs in a fresh -race worker process: concurrent loads as the first action of the process, concurrent use of one shared module from separate browsers/stores (incl. concurrent FIRST use of a fresh module with union/leafref/enum leaves), and both mixed, for G in {2,8,32} and GOMAXPROCS in {2,4,16}. Race reports are collected from the detector logs and de-duplicated by innermost library frame pair; overlap of operations is measured with a logical clock and reported in the evidence.',
+         'happens-before detection only sees the interleavings that occurred; overlap counts are in the evidence file', 'DESIGN.md 3/C20'),
  'C05': ('exploration', 'runtime monitor: independent membership evaluator (math/big intervals, code-point lengths, anchored patterns) vs error result and store content on 5 write paths',
          'For generated restriction chains (base type x up to 3 typedef levels; ranges with alternatives, open ends, min/max, 64-bit and decimal64 bounds; lengths; patterns incl. invert-match; enum/bits/identityref) every boundary candidate is written through Set, SetValue, JSON, XML and node sources; a value outside the effective type must be rejected and leave the stored value unchanged; no check may panic. Over-rejections are counted, not alarmed.',
          'trusts the evaluator (regexp anchored, math/big); typed Set of enum/bits/identity labels is not asserted (conversion decides membership)', 'DESIGN.md 3/C05'),
